@@ -1,49 +1,99 @@
-(* FixPart.v — odf/opendocument.py:__fixXmlPart: the textual patch load() applies to every XML member before it is parsed
-   (namespace declarations some producers leave out are inserted where the first " xmlns:" stands).  What matters for C13:
-   the patch must not reach into a document type declaration, or a member that declares entities reaches the parser in
-   another shape than it has in the package (it did: fix f5cab13). *)
+(* FixPart.v — odf/opendocument.py:__fixXmlPart and __endOfDoctype: the textual patch load() applies to every XML member
+   before it is parsed (namespace declarations some producers leave out are inserted in front of the first declaration).
+   What matters for C13: the patch must not reach into a document type declaration, or a member that declares entities
+   reaches the parser in another shape than it has in the package (it did: fixes f5cab13, cd18065, becf442). *)
 From Coq Require Import ZArith.
-From Odf Require Import model.Base model.XmlLex.
+From Odf Require Import model.Base model.Chars model.XmlLex.
 
+(* str.find(needle, from): index of the first occurrence at or after position i of s *)
 Fixpoint find_from (needle s : str) (i : nat) : option nat :=
   match s with
   | [] => match needle with [] => Some i | _ => None end
   | c :: r => match strip_prefix needle s with Some _ => Some i | None => find_from needle r (S i) end
   end.
-Definition contains (needle s : str) : bool := match find_from needle s 0 with Some _ => true | None => false end.
+Definition starts (p s : str) : bool := match strip_prefix p s with Some _ => true | None => false end.
 
-(* the end of the document type declaration that starts at position i: quotes and the brackets of the internal subset
-   are respected; None = it never ends *)
-Fixpoint dtd_end (s : str) (i : nat) (quote : option cp) (depth : Z) : option nat :=
+Definition sDOCTYPE : str := s2l "<!DOCTYPE".
+Definition sPI : str := s2l "<?".
+Definition sPIEND : str := s2l "?>".
+Definition sCOM : str := s2l "<!--".
+Definition sCOMEND : str := s2l "-->".
+Definition sXMLNS : str := s2l "xmlns:".
+Definition is_xws (c : cp) : bool := (c =? 32) || (c =? 9) || (c =? 13) || (c =? 10).
+Definition is_prolog_ws (c : cp) : bool := is_xws c || (c =? 65279).        (* a byte-order mark is skipped too *)
+
+(* the declaration itself, entered at its first character: literals, the internal subset in brackets, comments and processing
+   instructions inside it.  skip = characters still to be passed over (the rest of a comment or processing instruction).
+   None = it does not end *)
+Fixpoint dtd_end (s : str) (i : nat) (quote : option cp) (depth : Z) (skip : nat) : option nat :=
   match s with
   | [] => None
   | c :: r =>
-      match quote with
-      | Some q => dtd_end r (S i) (if c =? q then None else quote) depth
-      | None =>
-          if (c =? 34) || (c =? 39) then dtd_end r (S i) (Some c) depth
-          else if c =? 91 then dtd_end r (S i) None (depth + 1)
-          else if c =? 93 then dtd_end r (S i) None (depth - 1)
-          else if (c =? 62) && (depth =? 0)%Z then Some (S i)
-          else dtd_end r (S i) None depth
+      match skip with
+      | S k => dtd_end r (S i) quote depth k
+      | O =>
+        match quote with
+        | Some q => dtd_end r (S i) (if c =? q then None else quote) depth 0
+        | None =>
+            if starts sCOM s then
+              match find_from sCOMEND (skipn 4 s) 4 with Some j => dtd_end r (S i) None depth (j + 2) | None => None end
+            else if starts sPI s then
+              match find_from sPIEND s 0 with Some j => dtd_end r (S i) None depth (j + 1) | None => None end
+            else if (c =? 34) || (c =? 39) then dtd_end r (S i) (Some c) depth 0
+            else if c =? 91 then dtd_end r (S i) None (depth + 1) 0
+            else if c =? 93 then dtd_end r (S i) None (depth - 1) 0
+            else if (c =? 62) && (depth =? 0)%Z then Some (S i)
+            else dtd_end r (S i) None depth 0
+        end
       end
   end.
 
-Definition sDOCTYPE : str := s2l "<!DOCTYPE".
-Definition sXMLNS_SP : str := s2l " xmlns:".
-Definition root_start (s : str) : nat :=
-  match find_from sDOCTYPE s 0 with
-  | None => 0%nat
-  | Some pos => match dtd_end (skipn pos s) pos None 0 with Some e => e | None => List.length s end
+(* the prolog in front of it: XML declaration, processing instructions, comments, white space.  Result: the index behind the
+   document type declaration; 0 when the root element comes first; the length of the text when something does not end *)
+Fixpoint prolog (fuel : nat) (s : str) (i : nat) (total : nat) : nat :=
+  match fuel with
+  | O => total
+  | S f =>
+      match s with
+      | [] => total
+      | c :: r =>
+          if starts sPI s then
+            match find_from sPIEND s 0 with Some j => prolog f (skipn (j + 2) s) (i + j + 2) total | None => total end
+          else if starts sCOM s then
+            match find_from sCOMEND (skipn 4 s) 4 with Some j => prolog f (skipn (j + 3) s) (i + j + 3) total | None => total end
+          else if starts sDOCTYPE s then
+            match dtd_end s i None 0 0 with Some e => e | None => total end
+          else if is_prolog_ws c then prolog f r (S i) total
+          else 0%nat
+      end
+  end.
+Definition root_start (s : str) : nat := Nat.min (prolog (S (List.length s)) s 0 (List.length s)) (List.length s).
+
+(* re.search('[ \t\r\n]xmlns:'): the first white-space character that is followed by the needle, at or after position i *)
+Fixpoint find_ws_then (needle s : str) (i : nat) : option nat :=
+  match s with
+  | [] => None
+  | c :: r => if is_xws c && starts needle r then Some i else find_ws_then needle r (S i)
+  end.
+(* re.search('[ \t\r\n]xmlns:PREFIX[ \t\r\n]*='): some declaration of the prefix *)
+Fixpoint skip_ws (s : str) : str := match s with c :: r => if is_xws c then skip_ws r else s | [] => [] end.
+Fixpoint declared (p s : str) : bool :=
+  match s with
+  | [] => false
+  | c :: r =>
+      (is_xws c && match strip_prefix (sXMLNS ++ p) r with
+                   | Some rest => match skip_ws rest with e :: _ => e =? 61 | [] => false end
+                   | None => false end)
+      || declared p r
   end.
 
 Definition prefixes : list str := map s2l ["meta"; "config"; "dc"; "style"; "svg"; "fo"; "draw"; "table"; "form"]%string.
-Definition decl (p : str) : str := sXMLNS_SP ++ p ++ s2l "=""urn:oasis:names:tc:opendocument:xmlns:" ++ p ++ s2l ":1.0""".
+Definition decl (p : str) : str := (32 :: sXMLNS) ++ p ++ s2l "=""urn:oasis:names:tc:opendocument:xmlns:" ++ p ++ s2l ":1.0""".
 Definition insert_at (s : str) (i : nat) (x : str) : str := firstn i s ++ x ++ skipn i s.
 
 Definition fix_one (orig : str) (start : nat) (result p : str) : str :=
-  if contains (sXMLNS_SP ++ p) (skipn start orig) then result
-  else match find_from sXMLNS_SP (skipn start result) start with
+  if declared p (skipn start orig) then result
+  else match find_ws_then sXMLNS (skipn start result) start with
        | Some pos => insert_at result pos (decl p)
        | None => result
        end.
